@@ -14,6 +14,7 @@
   depends on earlier builds.
 -/
 import Proofs.Param
+import Proofs.ParamStore
 namespace Pulser
 namespace C08
 open Param
@@ -189,6 +190,39 @@ theorem index_resolves_declared_order (declared : List Nat) (chosen reg : List (
   rw [this, List.getElem?_take]
   simp [hi]
 
+/-- **No spurious rejection at store time** (the store-time checks are implied by the
+build-time checks): let `userOps` be the successful concrete calls issued before the sequence
+became parametrized (not measured), `stored` the calls issued afterwards and `ops` their
+evaluation under `ρ`.  If the DIRECT construction `userOps ++ ops` succeeds, then every call
+of `stored`, taken in order, passes all the checks it goes through when it is stored
+(`storeCheck`: `@block_if_measured` via `_param_measurement`, `_validate_channel` on the
+declared channels, the EOM mode read off the stored calls by `is_in_eom_mode`, DMM / non-DMM,
+protocol, `validate_duration` of a concrete `add_eom_pulse` duration, `validate_pulse` of a
+concrete pulse, `_process_eom_parameters` of concrete EOM arguments, emptiness / addressing /
+`max_targets` / index range of targets, the checks of `align`, the basis of a phase shift, the
+measurement basis).  Hypothesis `targetsDistinct`: the indices an ARRAY variable evaluates to
+are pairwise distinct — without it the statement is false
+(`store_rejects_what_direct_accepts`).  Outside the statement: `declare_channel` /
+`config_detuning_map` issued while parametrized (they are not in the `POp` language). -/
+theorem store_no_spurious_reject (I : Interp) (ρ : Assign) (dev : Device) (nQ : Nat)
+    (userOps : List Op) (pre : SeqState) (vars : List (Nat × Nat)) (stored : List POp) (ops : List Op)
+    (s' : SeqState)
+    (hpre : runAll (SeqState.init dev nQ) userOps = .ok pre)
+    (hb : ∀ op ∈ userOps, building op = true) (hm : pre.measured = none)
+    (hev : evalOps I ρ stored = some ops)
+    (hdirect : runAll (SeqState.init dev nQ) (userOps ++ ops) = .ok s')
+    (hnd : ∀ p ∈ stored, targetsDistinct I ρ p) :
+    acceptsAll { pre := pre, stored := [], vars := vars, param := true, paramMeas := none } stored = true := by
+  have hinv : PreInv pre := preInv_runAll (preInv_init dev nQ) hb hpre
+  have hrun := runAll_append_ok (b := ops) hpre
+  rw [hrun] at hdirect
+  exact acceptsAll_of_direct I ρ (agree_init vars hinv hm) hev hdirect hnd
+
+/-- … and an accepted call is stored by `tstep` exactly as `storeT` says (so `acceptsAll` is
+"`tstep` never raises along the stored list"). -/
+theorem tstep_stores_accepted {t : Tmpl} {p : POp} (hp : t.param = true) (hv : varsDeclared t p = true)
+    (hc : storeCheck t p = none) : tstep t p = (storeT t p, none) := tstep_accepts hp hv hc
+
 /-! ### Findings visible in the model -/
 
 def exCfg : ChanCfg := { clock := 4, minDur := 16, rise := 120, pjt := 240, isLocal := true,
@@ -246,6 +280,9 @@ example : build idI exT2 [(0, [10]), (1, [0, 1])] ≠ build idI exT2 [(0, [12]),
   decide +kernel
 example : (buildM idI exT2 (buildM idI exT2 [] [(0, [12]), (1, [1, 0])]).1 [(0, [10]), (1, [0, 1])]).2
     = build idI exT2 [(0, [10]), (1, [0, 1])] := by decide +kernel
+-- store_no_spurious_reject: the stored list of the example is accepted call by call
+example : acceptsAll { pre := exPre, stored := [], vars := exT.vars, param := true, paramMeas := none } exStored
+    = true := by decide +kernel
 -- a missing value is an error, not a stale value
 example : build idI exT2 [(0, [10])] = .error .missingValue := by decide +kernel
 -- mappable register: ids 5,6,7,8 declared; the caller gives {6 ↦ trap 3, 5 ↦ trap 9}
